@@ -331,4 +331,93 @@ the status a caller derives from the error is UNAVAILABLE. -/
 def classClauses (chain : List ErrChain.Node) (code : Nat) : List (String × Bool) :=
   [ ("error-is-unavailable-class", !isConnectFailure chain || code == unavailable) ]
 
+/-! ### scripts over a real network endpoint -/
+
+/-- What the oracle tracks: is a server listening, how many servers have been started, and the
+generation of the server that holds a live connection with the channel. -/
+structure NSt where
+  up : Bool
+  gen : Nat
+  live : Option Nat
+deriving DecidableEq, Repr
+
+/-- The environment's own steps. -/
+def NSt.env (s : NSt) : NOp → NSt
+  | .up => if s.up then s else { s with up := true, gen := s.gen + 1 }
+  | .down => { s with up := false, live := none }
+  | .call => s
+
+/-- The clauses one observed call must satisfy. -/
+def netCallClauses (s : NSt) (res : NRes) : List (String × Bool) :=
+  [ ("definite-result",
+      match res with
+      | .resp _ => true
+      | .error _ => true
+      | .hang => false
+      | .garbled => false),
+    ("response-from-a-live-connection",
+      match res with
+      | .resp g => s.live == some g || (s.live.isNone && s.up && g == s.gen)
+      | .error _ => true
+      | .hang => true
+      | .garbled => true),
+    ("error-is-unavailable-class",
+      match res with
+      | .error code => code == unavailable
+      | .resp _ => true
+      | .hang => true
+      | .garbled => true),
+    ("error-only-while-no-connection-can-be-made",
+      match res with
+      | .error _ => s.live.isNone && !s.up
+      | .resp _ => true
+      | .hang => true
+      | .garbled => true),
+    ("call-succeeds-when-endpoint-reachable",
+      !(s.live.isSome || s.up) ||
+        (match res with
+         | .resp _ => true
+         | .error _ => false
+         | .hang => false
+         | .garbled => false)) ]
+
+def netNext (s : NSt) (res : NRes) : NSt :=
+  { s with live := match res with
+      | .resp g => some g
+      | .error _ => none
+      | .hang => none
+      | .garbled => none }
+
+def netEvClauses : NSt → List NOp → List NRes → List (String × Bool)
+  | _, [], [] => []
+  | _, [], _ :: _ => [("trace-shape", false)]
+  | s, .up :: ops, evs => netEvClauses (s.env .up) ops evs
+  | s, .down :: ops, evs => netEvClauses (s.env .down) ops evs
+  | _, .call :: _, [] => [("trace-shape", false)]
+  | s, .call :: ops, res :: evs => netCallClauses s res ++ netEvClauses (netNext s res) ops evs
+
+/-- All clauses for one observed run: `pre` are the environment's steps before the channel is
+built (no calls among them), `post` the steps after. A lazy channel is built without
+connecting; an eager one (`Endpoint::connect`) connects first: with a server listening that
+succeeds, without one it must fail at once with an UNAVAILABLE-class error — not hand out a
+channel. -/
+def netClauses (isLazy : Bool) (pre post : List NOp) (t : NTrace) : List (String × Bool) :=
+  let s0 : NSt := pre.foldl NSt.env { up := false, gen := 0, live := none }
+  if isLazy then
+    ("lazy-build-succeeds", t.build == .ok) :: netEvClauses s0 post t.evs
+  else if s0.up then
+    ("eager-build-succeeds", t.build == .ok) :: netEvClauses { s0 with live := some s0.gen } post t.evs
+  else
+    [ ("eager-initial-failure-reported-by-connect",
+        match t.build with
+        | .error _ => true
+        | .ok => false
+        | .hang => false),
+      ("error-is-unavailable-class",
+        match t.build with
+        | .error code => code == unavailable
+        | .ok => true
+        | .hang => true),
+      ("no-call-without-a-channel", t.evs.isEmpty) ]
+
 end Spec.Reconnect
